@@ -98,6 +98,16 @@ struct Gen {
             double u = rng.unit();
             if (u < 0.06) { static const uint32_t edge[] = {1, 2, 16807, 2147483646u, 2147483645u, 1043618065u}; f.pseed = edge[rng.below(6)]; }
             else f.pseed = (uint32_t)rng.range(1, 2147483646LL);
+            // high column degrees: N1 up to 40 (the advertised domain is 3 <= N1 <= n-k), and tiny k with many repair symbols
+            // (most rows get no source entry, so the extra entries pile up in a few columns): one arriving symbol can then make
+            // dozens of equations solvable in a single step. Drawn from a side stream, so that every other flow of the plan
+            // is exactly what it was before this bias existed.
+            {
+                Rng side(mix64(f.pseed, ((uint64_t)f.k << 32) | f.r));
+                double v = side.unit();
+                if (v < 0.05 && f.k <= 3000) { f.N1 = (uint32_t)side.range(11, 40); f.r = std::max(f.r, f.N1); cnt("ldpc_high_N1_flows"); }
+                else if (v < 0.09 && f.k <= 12) { f.r = std::max<uint32_t>(f.r, (uint32_t)side.range(30, 150)); cnt("ldpc_tiny_k_many_repair_flows"); }
+            }
         } else if (codec == C_2D) {
             // every (k, r) with k <= 16 and n <= 24 is tried; most are not product shapes
             std::vector<std::pair<uint32_t, uint32_t>> ok, all;
